@@ -28,6 +28,7 @@ class G:
         self.max_rows = max_rows
         self.leafnames: list[str] = []
         self.has_chain: set[str] = set()   # relations whose tree (may) contain a chain
+        self.leaf_rels: set[str] = set()   # relations that ARE leaves (created by `leaf`)
         self.leaves_of: dict[str, frozenset[str]] = {}   # leaf names a relation reads
         self.emit(["tags", [[n, k] for n, k in TAGS]])
 
@@ -188,6 +189,7 @@ class G:
         self.cols[r] = frozenset(cols)
         self.eng[r] = engine
         self.leaves_of[r] = frozenset([name])
+        self.leaf_rels.add(r)
         return r
 
     def doomed(self, engine: str, cols=None) -> str:
@@ -277,6 +279,18 @@ class G:
         r = self.fresh()
         opts = opts or self.opts()
         self.emit(["joinp", r, lhs, rhs, pred or ["plit", "T"], opts])
+        self.cols[r] = self.cols[lhs] | self.cols[rhs]
+        self.eng[r] = self.eng[rhs] if opts[1] == "-" else opts[1]
+        if lhs in self.has_chain or rhs in self.has_chain:
+            self.has_chain.add(r)
+        self.leaves_of[r] = self.leaves_of.get(lhs, frozenset()) | self.leaves_of.get(rhs, frozenset())
+        return r
+
+    def joinmax(self, lhs: str, rhs: str, cap, pred=None, opts=None) -> str:
+        """A join whose automatic common columns are capped by `max_columns`."""
+        r = self.fresh()
+        opts = opts or self.opts()
+        self.emit(["joinmax", r, lhs, rhs, sorted(cap), pred or ["plit", "T"], opts])
         self.cols[r] = self.cols[lhs] | self.cols[rhs]
         self.eng[r] = self.eng[rhs] if opts[1] == "-" else opts[1]
         if lhs in self.has_chain or rhs in self.has_chain:
@@ -738,6 +752,18 @@ def prog_sql(seed: int, n_ops: int = 8, *, sorts: float = 1.0, selfjoin: float =
         observed.append(guard)
         if other is not None:
             observed.append(g.join(other, guard, None) if rng.random() < 0.5 else g.join(guard, other, None))
+    if rng.random() < 0.15:
+        # scenario: a column calculated directly over a bare table under the NAME of a column of another
+        # table, compiled, and then that table joined as the RIGHT operand with the other one: the shared
+        # leaf payload must not have learnt the calculated column (every output column comes from an
+        # operand that actually exposes it)
+        keys = sorted(rng.sample(["a", "b", "d"], rng.choice([1, 2])))
+        ta_ = g.leaf("e0", cols=keys, nrows=rng.choice([2, 3, 4]))
+        tb_ = g.leaf("e0", cols=sorted(set(keys[:1]) | {"c"}), nrows=rng.choice([2, 3, 4]))
+        cal = g.apply(ta_, ["calc", "c", ["fn", "add", "*", ["ref", keys[0]], ["lit", 100]]], g.cols[ta_] | {"c"})
+        g.emit(["sqlexec", cal])
+        g.emit(["sem", cal])
+        observed.append(g.join(tb_, ta_, None))
     allow = ["calc", "dedup", "proj", "sel", "slice"] + (["sort"] if rng.random() < sorts else [])
     for _ in range(n_ops):
         k = rng.random()
@@ -966,12 +992,39 @@ def prog_multi(seed: int, n_ops: int = 8, *, three: float = 0.3, prefs: float = 
             if u is None:
                 continue
             pred = g.pred(g.cols[t] | g.cols[u], 1) if rng.random() < 0.4 and (g.cols[t] | g.cols[u]) else None
-            if rng.random() < 0.3:
+            if rng.random() < 0.15:
+                # common columns capped by max_columns (a cap may name columns that are not shared keys)
+                shared = sorted(g.cols[t] & g.cols[u])
+                cap = set(rng.sample(shared, rng.randint(0, len(shared)))) | set(rng.sample(BASE_COLS, rng.choice([0, 1])))
+                r = g.joinmax(t, u, cap, pred, g.opts(rng.choice(["-", "-"] + engines), rng.random() < 0.7,
+                                                      rng.random() < 0.6, False))
+            elif rng.random() < 0.3:
                 r = g.joinp(t, u, pred, g.opts(rng.choice(["-"] + engines), rng.random() < 0.7, rng.random() < 0.6,
                                                rng.random() < 0.2))
             else:
                 r = g.join(t, u, pred, bt=rng.random() < 0.7, tr=rng.random() < 0.6)
         observed.append(r)
+    if rng.random() < 0.1:
+        # a SORTED (unsliced) SQL relation sent to an iteration engine and straight back: the round trip
+        # returns the original relation, so a further sort on another column still breaks ties by the
+        # first one (and chaining / materializing it is still refused)
+        cs = sorted(rng.sample(["a", "b", "d"], 2))
+        src = g.leaf("e0", cols=cs, nrows=rng.choice([3, 4]))
+        s1 = g.apply(src, ["sort", ["term", ["ref", cs[1]], rng.choice(["asc", "desc"])]], g.cols[src])
+        there = g.transfer(s1, rng.choice([e for e in engines if e != "e0"]))
+        back = g.transfer(there, "e0")
+        s2 = g.apply(back, ["sort", ["term", ["ref", cs[0]], rng.choice(["asc", "desc"])]], g.cols[back])
+        observed += [back, s2]
+        if rng.random() < 0.5:
+            g.emit(["mat", g.fresh(), back, f"M{g.n}"])      # must be refused: it would lose the order
+    if rng.random() < 0.1:
+        # two SQL tables sharing a key AND a non-key column, joined (through a transfer, so that the join is
+        # back-tracked into the SQL engine) with max_columns naming both: only the shared KEY is a common column
+        k0 = rng.choice(["a", "b", "d"])
+        l1 = g.leaf("e0", cols=sorted({k0, "c"}), nrows=rng.choice([2, 3]))
+        l2 = g.leaf("e0", cols=sorted({k0, "c"} | set(rng.sample(["a", "b", "d"], 1))), nrows=rng.choice([2, 3]))
+        lhs = g.transfer(l1, "e1") if rng.random() < 0.5 else l1
+        observed.append(g.joinmax(lhs, l2, {k0, "c"}, None, g.opts("-", True, rng.random() < 0.5, False)))
     if rng.random() < 0.1:
         # a join inside ONE engine whose predicate uses a function only the other engine family
         # supports: must be refused (EngineError), never built (C14: expressions are supported by
@@ -1040,7 +1093,7 @@ def prog_history(seed: int, n_ops: int = 6, n_events: int = 10) -> G:
         # first processing and the hook must not run again
         if not two and "e2" not in g.kind:
             g.engine("e2", "iter")
-        srcs = [x for x in g.cols if g.cols[x] and g.eng[x] != "e0" and x in g.leaves_of.get(x, frozenset([x]))]
+        srcs = [x for x in g.cols if g.cols[x] and g.eng[x] != "e0" and x in g.leaf_rels]
         if not srcs:
             srcs = [g.leaf("e1" if two else "e2", cols=sorted(rng.sample(BASE_COLS, 2)))]
         src = rng.choice(srcs)
@@ -1057,6 +1110,27 @@ def prog_history(seed: int, n_ops: int = 6, n_events: int = 10) -> G:
             g.emit(["show", m])
             g.emit(["exec", pz])
             g.emit(["sem", u])
+    if rng.random() < 0.2:
+        # scenario: a materialization of a chain with a statically EMPTY branch (a doomed leaf, which has a
+        # payload) next to a branch that needs real work, shared by two trees processed one after the
+        # other: the survivor's own "already persisted" flag decides whether the materialize hook runs
+        srcs = [x for x in g.cols if g.cols[x] and x in g.leaf_rels and x not in g.has_chain]
+        if srcs:
+            src = rng.choice(srcs)
+            c = rng.choice(sorted(g.cols[src]))
+            work = g.apply(src, ["sel", ["pfn", "ge", "*", ["ref", c], ["lit", 0]]], g.cols[src])
+            dm = g.doomed(g.eng[src], cols=sorted(g.cols[src]))
+            ch = g.chain(dm, work) if rng.random() < 0.5 else g.chain(work, dm)
+            m = g.mat(ch)
+            mats.append(m)
+            u1 = g.apply(m, ["sel", ["pfn", "ge", "*", ["ref", c], ["lit", 0]]], g.cols[m])
+            u2 = g.apply(m, ["slice", 0, 2, "-"], g.cols[m])
+            for k2, u in enumerate((u1, u2, u1)):
+                pz = f"y{k2}"
+                g.emit(["process", pz, u])
+                g.emit(["show", m])
+                g.emit(["exec", pz])
+                g.emit(["sem", u])
     for i in range(n_events):
         r = rng.choice(rels + mats)
         k = rng.random()
@@ -1474,7 +1548,7 @@ def prog_values(seed: int, n_ops: int = 6) -> G:
             g.emit(["sqlexec", r])
         g.emit(["snap"])
     # a bare SQL leaf joined with each side operand, compiled twice (leaf payloads are shared objects)
-    base = next((x for x in g.cols if g.eng[x] == "e0" and x != side and x in g.leaves_of.get(x, frozenset([x]))), None)
+    base = next((x for x in g.cols if g.eng[x] == "e0" and x != side and x in g.leaf_rels), None)
     if base is not None:
         for x, _ in side_tw[1:]:
             if not (g.cols[x] & g.cols[base] & NONKEY) and \
